@@ -63,13 +63,25 @@ def one(ctx, kp, letter, alt, octave):
         ctx.nontriv(s)
 
 
-def shared_instances(ctx, kp, order_name, spellings):
+JUNK = ['c#-', 'cd', 'h', 'c####', '', 'cC', 'c-#', 'r', '4c', 'c ', 'ccccccccccc', 'C#n', '#', 'x']
+
+
+def shared_instances(ctx, kp, order_name, spellings, junk=False):
     """The same importer and exporter objects are reused for the whole grid (histories): the answer for a spelling must
     not depend on what the instance converted before."""
     imp = kp.HumdrumPitchImporter()
     exp = kp.HumdrumPitchExporter()
     kept = []
-    for (letter, alt, octave) in spellings:
+    for k_, (letter, alt, octave) in enumerate(spellings):
+        if junk and k_ % 23 == 5:
+            # a text that is not a spelling goes through the same instance first: whatever it answers (an exception or some pitch)
+            # is counted, not judged - the valid spelling that follows must be unaffected by it
+            j = JUNK[(k_ // 23) % len(JUNK)]
+            try:
+                imp.import_pitch(j)
+                ctx.mon('junk_imports_returned')
+            except Exception as e:  # noqa
+                ctx.mon(f'junk_imports_raised:{type(e).__name__}')
         s = I.spell(letter, alt, octave)
         ctx.ev()
         ctx.mon('shared_instance_calls')
@@ -116,7 +128,8 @@ def run(ctx: Ctx):
     ctx.rule = ('exhaustive grid: 7 letters x alterations -3..+3 x octaves -1..9 (539 Humdrum spellings, lower case for '
                 'octave >= 4, upper case below): import gives (letter, alteration, octave); export returns the spelling; '
                 'name/octave of the pitch object snapshotted before and after export; exported twice; the whole grid again through ONE reused '
-                'importer and ONE reused exporter in grid, reverse and shuffled orders (history independence). '
+                'importer and ONE reused exporter in grid, reverse and shuffled orders (history independence), also with texts that are not '
+                'spellings (mixed accidentals, unknown letters, empty text ...) sent through the same importer in between. '
                 'Non-trivial = spelling with an accidental; distinct by spelling.')
     ctx.assumptions = ['Humdrum spelling c=C4, cc=C5, C=C3, CC=C2']
     n = 0
@@ -135,6 +148,7 @@ def run(ctx: Ctx):
         g2 = grid[:]
         rng_for(ctx.seed, 'c16-order', k).shuffle(g2)
         shared_instances(ctx, kp, f'shuffled order {k}', g2)
+        shared_instances(ctx, kp, f'shuffled order {k} with rejected texts in between', g2, junk=True)
     ctx.exhaustive = True
     ctx.extra['grid_cases'] = n
     ctx.floors = {'grid': ('import_call', 539), 'double export': ('second_export', 500)}
